@@ -247,6 +247,24 @@ func systematicQueries(vi valueInfo, thorough bool) []*Q {
 		qn("pipe", q0("tojson"), q0("length")),
 		qn("pipe", q0("tostring"), q0("tonumber")),
 	)
+	// after a slice (the slice of a decoded JSON array is a bare gojqx.Array: every dispatch site again)
+	for _, sl := range []*Q{qSlice(ip(0), ip(2)), qSlice(ip(1), nil), qSlice(nil, ip(-1))} {
+		for _, op := range []string{"length", "keys", "it", "toent", "sort", "tojson", "type", "tostring", "paths", "rec"} {
+			qs = append(qs, qn("pipe", sl, q0(op)))
+		}
+		qs = append(qs, qn("pipe", sl, qIndex(0)), qn("pipe", sl, qIndex(-1)), qn("pipe", sl, qSlice(ip(1), nil)),
+			qn("pipe", sl, qHas(0)), qn("pipe", sl, qHas(1.0)), qn("pipe", sl, qHas("a")), qn("pipe", sl, qField("a")),
+			qn("obj", sl, qLit(1)), qn("add", sl, sl), qn("sub", sl, qLit([]any{1})), qn("eq", sl, qLit([]any{})),
+			qn("if", sl, qLit(1), qLit(2)), qn("alt", sl, qLit(0)))
+	}
+	// two steps down: (D3) on a child, (D1) through a construction
+	for _, k := range vi.names {
+		qs = append(qs, qn("pipe", qField(k), qField("nope")), qn("pipe", qField(k), qn("try", qField("a"))),
+			qn("pipe", qField(k), q0("length")), qn("pipe", qField(k), q0("keys")))
+	}
+	qs = append(qs, qn("pipe", qn("arr", q0("it")), qIndex(0)), qn("pipe", qn("arr", q0("it")), q0("sort")),
+		qn("pipe", q0("toent"), qIndex(0)), qn("pipe", q0("keys"), qIndex(-1)),
+		qn("pipe", qn("arr", q0("paths")), qIndex(0)))
 	for _, l := range litPool {
 		qs = append(qs, qn("eq", q0("id"), qLit(l)), qn("lt", q0("id"), qLit(l)), qn("lt", qLit(l), q0("id")),
 			qn("add", q0("id"), qLit(l)), qn("add", qLit(l), q0("id")), qn("sub", q0("id"), qLit(l)))
